@@ -9,6 +9,7 @@ Every log is judged by TLC (EBB3Trace) with the checking property's clauses in f
 import os
 import random
 
+import ebbfake
 import vlib
 
 NONE = -1000001
@@ -17,6 +18,19 @@ VOID = {"query_nickname", "timed_pause", "xy_move", "abs_move", "motors_disable"
         "pen_raise", "dio_b_config", "pb_set", "pen_pos_down", "pen_pos_up", "pen_rate_down", "pen_rate_up", "servo_timeout", "record_error",
         "disconnect"}
 VERSION_LINE = "EBBv13_and_above EB Firmware Version %s"
+# = EBB3Ops!DevVersions (cross-checked by check_dev_versions)
+DEV_VERSIONS = {"ebb_ok": "3.0.3", "ebb_late": "3.0.3", "ebb_old": "2.8.1", "ebb_min": "3.0.2", "ebb_below": "3.0.1", "ebb_v3_0_10": "3.0.10",
+                "ebb_v10": "10.0.0", "ebb_v2_10_9": "2.10.9"}
+VERSION_DEVS = ("ebb_min", "ebb_below", "ebb_v3_0_10", "ebb_v10", "ebb_v2_10_9")
+
+
+def check_dev_versions():
+    import re
+    src = open(os.path.join(vlib.SPEC, "EBB3Ops.tla")).read()
+    tab = src[src.index("DevVersions == ["):src.index("HasVersion(d)")]
+    got = {m.group(1): "%s.%s.%s" % m.group(2, 3, 4) for m in re.finditer(r"(\w+) \|-> <<(\d+), (\d+), (\d+)>>", tab)}
+    if got != DEV_VERSIONS:
+        raise vlib.MachineryError("ebb3lib.DEV_VERSIONS and EBB3Ops!DevVersions disagree: %r" % (got,))
 
 
 def mods():
@@ -40,8 +54,18 @@ def render_payload(name, rep):
     return ",".join(str(v) for v in vals)
 
 
-def render_reply(kind, name, rep):
+def payload_of_line(name, line):
+    """the statement's rule for a successful query: the reply with the request's name and ONE separating comma removed"""
+    rest = line[len(name):]
+    return rest[1:] if rest.startswith(",") else rest
+
+
+def render_reply(kind, name, rep, shape=""):
     p = render_payload(name, rep)
+    if kind == "conf" and shape == "nc" and p != "":
+        return name + p                    # no separating comma at all: nothing but the name is removed
+    if kind == "conf" and shape == "dc":
+        return name + ",," + p             # an empty first field: only ONE comma is the separator
     if kind == "conf":
         if p == "" and name.upper().startswith("Q"):
             return name + ","              # a query whose payload is empty still carries its separating comma (e.g. "QT," for no nickname)
@@ -110,7 +134,7 @@ class PyBoard:
         return {"vals": [], "s": ""}
 
 
-class ScriptedPort:
+class ScriptedPort(ebbfake.PortExtras):
     """serial port whose every write/read outcome comes from a plan supplier; logs every operation in the judge's format"""
 
     def __init__(self, serial_mod, dev="ebb_ok", supplier=None):
@@ -122,6 +146,7 @@ class ScriptedPort:
         self.probes = 0
         self.closed = False
         self.hand = None                  # pending handshake reply
+        self.fresh = False                # just opened by connect(): nothing but probes written so far
 
     def begin_call(self):
         self.ops = []
@@ -150,8 +175,9 @@ class ScriptedPort:
     def write(self, raw):
         text = raw.decode("ascii", "replace")
         body = text.rstrip("\r")
-        if body == "v":                   # identification probe
+        if body == "v" or (body == "V" and self.fresh):            # identification probe (the EBB reads command names case-insensitively)
             self._log_w(raw, False)
+            self.ops[-1]["t"] = "v"
             self.probes += 1
             self.cur = None
             d = self.dev
@@ -161,15 +187,16 @@ class ScriptedPort:
                 self.hand = ("empty", None)
             elif d == "non_ebb":
                 self.hand = ("line", "Hello, I am not the board you are looking for")
-            elif d == "ebb_old":
-                self.hand = ("line", VERSION_LINE % "2.8.1")
+            elif d in DEV_VERSIONS and d not in ("ebb_ok", "ebb_late"):
+                self.hand = ("line", VERSION_LINE % DEV_VERSIONS[d])
             elif d == "ebb_noversion":
                 self.hand = ("line", "EBB")                                   # the letters, but no 'Firmware Version a.b.c' (e.g. a line cut short)
             elif d == "ebb_in_text":
                 self.hand = ("line", "WEBBox controller rev 7")              # a foreign device whose banner happens to contain the letters
             else:
-                self.hand = ("line", VERSION_LINE % "3.0.3")
+                self.hand = ("line", VERSION_LINE % DEV_VERSIONS.get(d, "3.0.3"))
             return len(raw)
+        self.fresh = self.fresh and body in ("v", "V")
         if body == "CU,10,1":
             self._log_w(raw, False)
             self.cur = None
@@ -181,7 +208,7 @@ class ScriptedPort:
             self.cur = None
             raise self.serial.SerialException("injected write failure")
         self._log_w(raw, False)
-        self.cur = {"name": req_name(body), "e": plan.get("e", 0), "o": plan.get("o", "conf"), "r": plan.get("r") or {"vals": [], "s": ""}, "reads": 0,
+        self.cur = {"name": req_name(body), "e": plan.get("e", 0), "o": plan.get("o", "conf"), "r": plan.get("r") or {"vals": [], "s": ""}, "shape": plan.get("shape", ""), "reads": 0,
                     "done": False}
         self.hand = None
         return len(raw)
@@ -211,13 +238,12 @@ class ScriptedPort:
             self._log_r("raise")
             raise self.serial.SerialException("injected read failure")
         self._log_r(c["o"], c["r"])
-        return (render_reply(c["o"], c["name"], c["r"]) + "\r\n").encode("ascii")
+        line = render_reply(c["o"], c["name"], c["r"], c.get("shape", ""))
+        self.ops[-1]["line"] = line
+        return (line + "\r\n").encode("ascii")
 
     def close(self):
         self.closed = True
-
-    def reset_input_buffer(self):
-        pass
 
 
 def opt(v):
@@ -235,6 +261,10 @@ def dispatch(obj, m, a, s, ws=0):
         return obj.dio_b_set(*A)
     if m == "record_error":
         return obj.record_error("user-recorded error")
+    if m == "connect" and ws % 4 == 1:
+        return obj.connect(None, "harness")              # the optional arguments, at their documented "not given" values
+    if m == "connect" and ws % 4 == 2:
+        return obj.connect("Lab")                        # by the name the enumerated board carries (SER=Lab)
     if m in ("connect", "disconnect", "reboot", "bootload", "query_statusbyte", "query_nickname", "motors_disable", "motors_query_enabled", "query_steps",
              "clear_steps", "clear_accumulators", "query_current"):
         return getattr(obj, m)()
@@ -280,6 +310,7 @@ class Session:
             if sess.dev == "unopenable":
                 raise sess.serial.SerialException("could not open port")
             sess.port = ScriptedPort(sess.serial, sess.dev, lambda text: sess.supplier(text))
+            sess.port.fresh = True
             sess.port.ops = sess.cur_ops
             return sess.port
         self.factory = factory
@@ -319,7 +350,8 @@ class Session:
         last_text = None
         if last is not None:
             wname = [o for o in self.cur_ops if o["k"] == "w"]
-            last_text = render_payload(req_name(wname[-1]["t"]) if wname else "", last)
+            nm = req_name(wname[-1]["t"]) if wname else ""
+            last_text = payload_of_line(nm, last["line"]) if "line" in last else render_payload(nm, last)
         rec["ops"] = ops
         rec["ret"] = ["other"] if rec["raised"] else enc_ret(m, val, last_text)
         rec["err_set"] = obj.err is not None
@@ -348,8 +380,9 @@ def judge(ctx, name, events, chunk=400):
 # G: scripts from the model
 # ---------------------------------------------------------------------------
 
-def run_script(hist, dev, board, start_connected):
-    """execute one TLC-generated history; returns (calls, drift) - drift = calls whose observables differ from the model's prediction"""
+def run_script(hist, dev, board, start_connected, wsoff=0):
+    """execute one TLC-generated history; returns (calls, drift) - drift = calls whose observables differ from the model's prediction.
+    wsoff rotates the whitespace padding of request texts / the connect() argument form"""
     state = {"env": []}
 
     def supplier(text):
@@ -376,7 +409,7 @@ def run_script(hist, dev, board, start_connected):
                 sess.dev = h["s"]
                 continue
             state["env"] = [dict(e) for e in h["env"]]
-            rec = sess.run_call(h["m"], h["a"], h["s"], ws=k + len(h["s"]))
+            rec = sess.run_call(h["m"], h["a"], h["s"], ws=(k + len(h["s"]) + wsoff) % 4)
             calls.append(rec)
             obs = h["obs"][0] if h["obs"] else None
             if obs is not None:
@@ -496,7 +529,8 @@ def random_history(rng, ncalls, fault_rate, alphabet=None, devs=("ebb_ok",), sta
             pyb.receive(text)              # the board acts on whatever it receives (as EBB3Ops!BoardAfter at the write)
             return {"w": "ok", "e": 0 if poll else rng.choice([0, 1, 3, 25]), "o": o, "r": pyb.reply(text)}
         pyb.receive(text)
-        return {"w": "ok", "e": 0 if poll else rng.choice([0, 0, 0, 1, 2, 24, 25]), "o": "conf", "r": pyb.reply(text)}
+        shape = rng.choice(["nc", "dc"]) if (name in ("QX", "Q") and rng.random() < 0.4) else ""       # only requests that the generic query() issues
+        return {"w": "ok", "e": 0 if poll else rng.choice([0, 0, 0, 1, 2, 24, 25]), "o": "conf", "r": pyb.reply(text), "shape": shape}
 
     sess = Session(dev, start_connected, b, supplier)
     calls, script = [], []
